@@ -347,3 +347,257 @@ pub mod knobs {
         }
     }
 }
+
+/// Scheduling seam: named points placed immediately before blocking operations. When a
+/// scheduler is installed (by the model-checking harness) a thread reaching a point parks until
+/// the scheduler lets it continue; the scheduler asks parked threads to evaluate their `probe`
+/// ("would the real operation that follows complete without blocking now?") on the real
+/// primitive. Without an installed scheduler every function here returns immediately.
+pub mod sched {
+    use std::cell::Cell;
+    use std::collections::HashMap;
+    use std::sync::atomic::{AtomicBool, Ordering};
+    use std::sync::{Arc, Condvar, Mutex};
+    use std::thread::ThreadId;
+
+    #[derive(Clone, Copy, PartialEq, Eq, Debug)]
+    pub enum St {
+        NotStarted,
+        Running,
+        Parked,
+        Done,
+    }
+
+    #[derive(Clone, Copy, PartialEq, Eq, Debug)]
+    pub enum Cmd {
+        None,
+        Eval,
+        Go,
+    }
+
+    /// How a point relates to a lock with writer-preferring fair queueing (parking_lot RwLock).
+    #[derive(Clone, Copy, PartialEq, Eq, Debug)]
+    pub enum Mode {
+        /// not a fair-lock acquisition
+        Plain,
+        Shared,
+        Exclusive,
+    }
+
+    #[derive(Clone, Debug)]
+    pub struct Slot {
+        pub st: St,
+        pub label: String,
+        pub cmd: Cmd,
+        pub reply: Option<bool>,
+        pub lock_id: usize,
+        pub mode: Mode,
+        /// arrival stamp at the current point (for FIFO fairness)
+        pub arrival: u64,
+        /// dynamically registered worker (sub-thread of an API call)
+        pub is_sub: bool,
+    }
+
+    impl Slot {
+        fn new(is_sub: bool) -> Self {
+            Slot {
+                st: St::NotStarted,
+                label: String::new(),
+                cmd: Cmd::None,
+                reply: None,
+                lock_id: 0,
+                mode: Mode::Plain,
+                arrival: 0,
+                is_sub,
+            }
+        }
+    }
+
+    pub struct Inner {
+        pub slots: Vec<Slot>,
+        /// the controlled thread currently running (points hit by unregistered helper threads
+        /// are attributed to it: it is blocked joining them)
+        pub running: Option<usize>,
+        pub arrivals: u64,
+        /// number of worker sub-threads announced but not yet registered
+        pub expected_subs: usize,
+        pub subs_started: usize,
+        pub subs_done: usize,
+        pub sub_slots: HashMap<ThreadId, usize>,
+    }
+
+    pub struct Sched {
+        pub m: Mutex<Inner>,
+        pub cv: Condvar,
+    }
+
+    static ACTIVE: AtomicBool = AtomicBool::new(false);
+    static CUR: Mutex<Option<Arc<Sched>>> = Mutex::new(None);
+    thread_local! { static ME: Cell<Option<usize>> = Cell::new(None); }
+
+    /// Install a scheduler controlling `n` registered threads.
+    pub fn install(n: usize) -> Arc<Sched> {
+        let s = Arc::new(Sched {
+            m: Mutex::new(Inner {
+                slots: (0..n).map(|_| Slot::new(false)).collect(),
+                running: None,
+                arrivals: 0,
+                expected_subs: 0,
+                subs_started: 0,
+                subs_done: 0,
+                sub_slots: HashMap::new(),
+            }),
+            cv: Condvar::new(),
+        });
+        *CUR.lock().unwrap() = Some(s.clone());
+        ACTIVE.store(true, Ordering::SeqCst);
+        s
+    }
+
+    pub fn uninstall() {
+        ACTIVE.store(false, Ordering::SeqCst);
+        *CUR.lock().unwrap() = None;
+    }
+
+    pub fn is_active() -> bool {
+        ACTIVE.load(Ordering::SeqCst)
+    }
+
+    fn current() -> Option<Arc<Sched>> {
+        if !is_active() {
+            return None;
+        }
+        CUR.lock().unwrap().clone()
+    }
+
+    fn park(s: &Sched, me: usize, label: &str, lock_id: usize, mode: Mode, probe: &dyn Fn() -> bool) {
+        let mut g = s.m.lock().unwrap();
+        g.arrivals += 1;
+        let arrival = g.arrivals;
+        {
+            let slot = &mut g.slots[me];
+            slot.st = St::Parked;
+            slot.label = label.to_string();
+            slot.lock_id = lock_id;
+            slot.mode = mode;
+            slot.arrival = arrival;
+            slot.reply = None;
+        }
+        if g.running == Some(me) {
+            g.running = None;
+        }
+        s.cv.notify_all();
+        loop {
+            match g.slots[me].cmd {
+                Cmd::Eval => {
+                    g.slots[me].cmd = Cmd::None;
+                    drop(g);
+                    let en = probe();
+                    g = s.m.lock().unwrap();
+                    g.slots[me].reply = Some(en);
+                    s.cv.notify_all();
+                }
+                Cmd::Go => {
+                    g.slots[me].cmd = Cmd::None;
+                    g.slots[me].st = St::Running;
+                    if !g.slots[me].is_sub {
+                        g.running = Some(me);
+                    }
+                    s.cv.notify_all();
+                    return;
+                }
+                Cmd::None => {
+                    g = s.cv.wait(g).unwrap();
+                }
+            }
+        }
+    }
+
+    fn whoami(s: &Sched) -> Option<usize> {
+        if let Some(id) = ME.with(|m| m.get()) {
+            return Some(id);
+        }
+        let g = s.m.lock().unwrap();
+        if let Some(id) = g.sub_slots.get(&std::thread::current().id()) {
+            return Some(*id);
+        }
+        // a helper thread of the API call that is currently running
+        g.running
+    }
+
+    /// A scheduling point in front of a blocking operation.
+    pub fn point(label: &str, probe: &dyn Fn() -> bool) {
+        let Some(s) = current() else { return };
+        let Some(me) = whoami(&s) else { return };
+        park(&s, me, label, 0, Mode::Plain, probe);
+    }
+
+    /// A scheduling point in front of an acquisition of a fair reader-writer lock.
+    pub fn point_lock(label: &str, lock_id: usize, exclusive: bool, probe: &dyn Fn() -> bool) {
+        let Some(s) = current() else { return };
+        let Some(me) = whoami(&s) else { return };
+        let mode = if exclusive { Mode::Exclusive } else { Mode::Shared };
+        park(&s, me, label, lock_id, mode, probe);
+    }
+
+    /// Register the calling thread as controlled thread `id` and park at its start point.
+    pub fn thread_begin(id: usize) {
+        ME.with(|m| m.set(Some(id)));
+        point("start", &|| true);
+    }
+
+    pub fn thread_end() {
+        let Some(s) = current() else { return };
+        let Some(me) = ME.with(|m| m.get()) else { return };
+        let mut g = s.m.lock().unwrap();
+        g.slots[me].st = St::Done;
+        if g.running == Some(me) {
+            g.running = None;
+        }
+        s.cv.notify_all();
+        ME.with(|m| m.set(None));
+    }
+
+    /// Announce that `n` worker sub-threads are about to be started by the running API call.
+    pub fn expect_subs(n: usize) {
+        let Some(s) = current() else { return };
+        let mut g = s.m.lock().unwrap();
+        g.expected_subs += n;
+        s.cv.notify_all();
+    }
+
+    /// Called at the start of a worker sub-thread: registers it and parks at its start point.
+    pub fn sub_begin(label: &str) {
+        let Some(s) = current() else { return };
+        let id = {
+            let mut g = s.m.lock().unwrap();
+            if g.expected_subs == 0 {
+                return;
+            }
+            g.expected_subs -= 1;
+            g.subs_started += 1;
+            g.slots.push(Slot::new(true));
+            let id = g.slots.len() - 1;
+            g.sub_slots.insert(std::thread::current().id(), id);
+            id
+        };
+        park(&s, id, label, 0, Mode::Plain, &|| true);
+    }
+
+    /// Called at the end of a worker sub-thread.
+    pub fn sub_end() {
+        let Some(s) = current() else { return };
+        let mut g = s.m.lock().unwrap();
+        let Some(id) = g.sub_slots.remove(&std::thread::current().id()) else { return };
+        g.slots[id].st = St::Done;
+        g.subs_done += 1;
+        s.cv.notify_all();
+    }
+
+    /// Whether every announced worker sub-thread has finished.
+    pub fn subs_all_done() -> bool {
+        let Some(s) = current() else { return true };
+        let g = s.m.lock().unwrap();
+        g.expected_subs == 0 && g.subs_done == g.subs_started
+    }
+}
